@@ -466,7 +466,10 @@ def _draw_uses(b, bb, me, arr):
 def rule_r14(ctx, prog, rule="R14"):
     """randomness only feeds partition_mut's pivot argument, range 0..len of the same array"""
     n = 0
+    view = getattr(prog, "_inl_view", None) is prog
     for b in prog.bodies.values():
+        if view and prog.new_helper(b) and any(b.key in (getattr(o, "inlined_from", None) or ()) for o in prog.bodies.values()):
+            continue        # a private helper that is read in place in every routine calling it: judged there
         for bb, t in b.calls():
             c = t["callee"]
             if c.get("krate") not in ("rand", "rand_core", "rand_chacha"):
